@@ -137,10 +137,25 @@ def decl(kind, name, pay, ns=(), types=()):
     return toks
 
 
-def semantics_of_recipe(builder):
-    """{port name: 'STS'|'MTS'} as decided by the build (from Builder._recipe)."""
-    rec = builder._recipe  # pylint: disable=protected-access
+def semantics_of_recipe(builder, header_text=None, port_names=()):
+    """{port name: 'STS'|'MTS'} as decided by the build: from Builder._recipe when that (private) attribute exists,
+    otherwise from the accessor declarations of the generated header (Sts<..>/Mts<..> return types)."""
+    try:
+        rec = builder._recipe  # pylint: disable=protected-access
+        out = {}
+        for prt in rec.dzn_elements.provides_ports + rec.dzn_elements.requires_ports:
+            out[prt.port.name] = prt.semantics.name
+        return out
+    except AttributeError:
+        return semantics_from_header(header_text or '', port_names)
+
+
+def semantics_from_header(text, port_names):
+    import re  # pylint: disable=import-outside-toplevel
     out = {}
-    for prt in rec.dzn_elements.provides_ports + rec.dzn_elements.requires_ports:
-        out[prt.port.name] = prt.semantics.name
+    for name in port_names:
+        cap = name[0].upper() + name[1:]
+        mat = re.search(r'::(Sts|Mts)<[^>]*>\s+(?:Provides|Requires)(?:MultiClient)?' + re.escape(cap) + r'\(', text)
+        if mat:
+            out[name] = 'STS' if mat.group(1) == 'Sts' else 'MTS'
     return out
